@@ -89,6 +89,14 @@ def run_case(rs, ctx):
             c["X"] = [[v + sh_ for v in row] for row in c["X"]]
             c["x_enc"] = gen.pick(rs, [None, "i8", "narrow", "list", "frame"])
         ctx.count("mixed_container_histories")
+    q_enc = None
+    if all(c.get("x_enc") is None for c in chunks) and rs.integers(4) == 0:
+        # everything the bandit ever sees - every batch and every query - is an array of one narrow integer dtype (counts,
+        # pixels): no call gives numpy a reason to promote
+        for c in chunks:
+            c["x_enc"] = "narrow"
+        q_enc = "narrow"
+        ctx.count("all_narrow_histories")
     nq = 4 if ctx.tier == "quick" else 6
     all_rows = [x for c in chunks for x in c["X"]]
     Q = []
@@ -154,7 +162,7 @@ def run_case(rs, ctx):
             import copy as _copy
             row_seeds = _copy.deepcopy(m._rng).randint(INT32, size=len(Q))  # the row seeds the call below is going to draw
         try:
-            res = m.predict_expectations(np.asarray(Q, dtype=float))
+            res = m.predict_expectations(gen.enc_X(Q, q_enc) if q_enc and max(max(q) for q in Q) < 256 else np.asarray(Q, dtype=float))
         except Exception as ex:  # noqa: BLE001
             ctx.violation("%s: predict_expectations raised %s: %s" % (gen.cfg_sig(cfg), type(ex).__name__, str(ex)[:80]), wit)
             return
